@@ -17,7 +17,7 @@ def run(tier, seed):
         v.absorb(res, byname, seed, floor_cases=n)
         c = res.counters
         cov = {
-            "evaluations": c.get("c07_prefix_parses", 0) + c.get("c07_suffix_parses", 0) + c.get("c07_bracket_parses", 0),
+            "evaluations": c.get("c07_prefix_parses", 0) + c.get("c07_suffix_parses", 0) + c.get("c07_bracket_parses", 0) + c.get("c07_blank_parses", 0),
             "distinct_nontrivial": len(res.distinct),
             "rule": "a case = one generated valid container document D without trailing whitespace (first checked to be "
                     "accepted); ALL |D| proper prefixes passed as (D,k) - same buffer, shorter length, so the units after "
@@ -27,6 +27,9 @@ def run(tier, seed):
                     "char/char16_t/char32_t. distinct_nontrivial = distinct documents",
             "samples": res.samples[:6],
             "documents": c.get("c07_documents", 0), "prefix_parses": c.get("c07_prefix_parses", 0),
+            "escape_phase_documents": c.get("c07_escape_phase_documents", 0),
+            "non_json_blank_parses": c.get("c07_blank_parses", 0),
+            "lone_low_surrogate_documents_refused": c.get("c07_lone_low_surrogate_documents_refused", 0),
             "suffix_parses": c.get("c07_suffix_parses", 0), "bracket_parses": c.get("c07_bracket_parses", 0),
             "all_rejected": c.get("rejected", 0), "builds": [x.describe() for x in cfgs],
             "cases_not_explored": res.unexplored,
